@@ -617,6 +617,9 @@ func (s *Stor) Close() error {
 
 // ---- crash images ----
 
+// JournalBlock is the block size of journal and manifest files (cut points are biased towards its multiples).
+const JournalBlock = 32768
+
 // TailPolicy says what happens at a crash to the unsynced tail of each file.
 type TailPolicy int
 
@@ -722,6 +725,18 @@ func imageFrom(base map[storage.FileDesc]*file, baseMeta storage.FileDesc, baseH
 			case TailKept:
 			case TailCut, TailCutZero, TailCutJunk:
 				cut := f.synced + int(rnd()%uint64(tail+1))
+				// half of the time prefer a structurally interesting byte: within 8 bytes of a 32 KiB block
+				// boundary (journal/manifest chunk headers are 7 bytes) inside the unsynced tail
+				if rnd()%2 == 0 {
+					lo, hi := f.synced/JournalBlock, len(f.data)/JournalBlock
+					if hi > lo {
+						b := (lo + 1 + int(rnd()%uint64(hi-lo))) * JournalBlock
+						c := b - 8 + int(rnd()%17)
+						if c >= f.synced && c <= len(f.data) {
+							cut = c
+						}
+					}
+				}
 				full := len(f.data)
 				f.data = append([]byte(nil), f.data[:cut]...)
 				for i := cut; i < full && io.Policy != TailCut; i++ {
